@@ -8,6 +8,7 @@ import (
 	"os"
 	"path/filepath"
 	"sort"
+	"strconv"
 	"strings"
 
 	"golang.org/x/tools/go/packages"
@@ -489,8 +490,18 @@ func findAnchorStmt(fset *token.FileSet, fd *ast.FuncDecl, anchor string) ast.St
 	if err != nil {
 		return nil
 	}
-	var found ast.Stmt
-	best := -1
+	// "text#N": the N-th (1-based, source order) of the minimal statements containing text
+	nth := 0
+	if k := strings.LastIndex(anchor, "#"); k > 0 {
+		if n, err := strconv.Atoi(anchor[k+1:]); err == nil && n > 0 {
+			nth, anchor = n, anchor[:k]
+		}
+	}
+	type cand struct {
+		st   ast.Stmt
+		a, b int
+	}
+	var cands []cand
 	ast.Inspect(fd.Body, func(n ast.Node) bool {
 		st, ok := n.(ast.Stmt)
 		if !ok {
@@ -499,12 +510,39 @@ func findAnchorStmt(fset *token.FileSet, fd *ast.FuncDecl, anchor string) ast.St
 		switch st.(type) {
 		case *ast.AssignStmt, *ast.ExprStmt, *ast.ReturnStmt, *ast.IncDecStmt, *ast.DeclStmt, *ast.DeferStmt, *ast.GoStmt, *ast.BranchStmt:
 			a, b := fset.Position(st.Pos()).Offset, fset.Position(st.End()).Offset
-			// the smallest statement containing the anchor; among equals the first
-			if a >= 0 && b <= len(data) && strings.Contains(string(data[a:b]), anchor) && (best < 0 || b-a < best) {
-				found, best = st, b-a
+			if a >= 0 && b <= len(data) && strings.Contains(string(data[a:b]), anchor) {
+				cands = append(cands, cand{st, a, b})
 			}
 		}
 		return true
 	})
+	if nth > 0 {
+		// minimal candidates only (no other candidate nested inside), in source order
+		var mins []cand
+		for _, c := range cands {
+			minimal := true
+			for _, d := range cands {
+				if d.st != c.st && d.a >= c.a && d.b <= c.b {
+					minimal = false
+				}
+			}
+			if minimal {
+				mins = append(mins, c)
+			}
+		}
+		sort.Slice(mins, func(i, j int) bool { return mins[i].a < mins[j].a })
+		if nth <= len(mins) {
+			return mins[nth-1].st
+		}
+		return nil
+	}
+	// default: the smallest statement containing the anchor; among equals the first
+	var found ast.Stmt
+	best := -1
+	for _, c := range cands {
+		if best < 0 || c.b-c.a < best {
+			found, best = c.st, c.b-c.a
+		}
+	}
 	return found
 }
